@@ -108,7 +108,7 @@ reg("C16",
 
 reg("C05",
     gen=lambda seed, tier: (P.gen_history_programs(G.Rng(seed + 5), N(tier, 60, 600), maxlen=N(tier, 14, 40)) +
-                            P.gen_bucket_programs(G.Rng(seed + 51), N(tier, 60, 600)) +
+                            P.gen_bucket_programs(G.Rng(seed + 51), N(tier, 60, 600)) + P.gen_bucket_shape_programs() +
                             P.gen_shared_removal_programs(G.Rng(seed + 52), N(tier, 20, 200)) +
                             P.gen_key_matrix_programs(G.Rng(seed + 53)) +
                             P.gen_attach_rewrite_programs(G.Rng(seed + 55))),
@@ -167,7 +167,7 @@ reg("C20",
                             P.gen_commit_programs(G.Rng(seed + 24), N(tier, 40, 400), big=N(tier, 0.03, 0.1)) +
                             P.gen_size_matrix(G.Rng(seed + 25)) +
                             P.gen_abandon_programs(G.Rng(seed + 26), N(tier, 20, 200)) +
-                            P.gen_bucket_programs(G.Rng(seed + 27), N(tier, 30, 300)) +
+                            P.gen_bucket_programs(G.Rng(seed + 27), N(tier, 30, 300)) + P.gen_bucket_shape_programs() +
                             P.gen_metadata_programs(G.Rng(seed + 28), N(tier, 30, 300))),
     monitors=[],
     rule="every program of the other streams plus hostile on-disk states (foreign checksummed records with 9 kinds of "
@@ -212,7 +212,7 @@ reg("C11",
          "field by field with what was supplied")
 
 reg("C06",
-    gen=lambda seed, tier: (P.gen_bucket_programs(G.Rng(seed + 6), N(tier, 150, 3000)) +
+    gen=lambda seed, tier: (P.gen_bucket_programs(G.Rng(seed + 6), N(tier, 150, 3000)) + P.gen_bucket_shape_programs() +
                             P.gen_block_boundary_programs(G.Rng(seed + 61))),
     monitors=[P.mon_bucket],
     nontrivial=lambda rr: rr.prog.tags.get("damage", "undamaged") != "undamaged",
@@ -224,7 +224,8 @@ reg("C06",
 reg("C17",
     gen=lambda seed, tier: (P.gen_layout_programs(G.Rng(seed + 17), N(tier, 80, 800)) +
                             P.gen_attach_rewrite_programs(G.Rng(seed + 171)) +
-                            P.gen_block_boundary_programs(G.Rng(seed + 172))),
+                            P.gen_block_boundary_programs(G.Rng(seed + 172)) +
+                            P.gen_bucket_shape_programs()),
     monitors=[lambda rr: (P.mon_attach(rr) if "attach" in rr.prog.tags else
                           P.mon_bucket(rr) if "bucket" in rr.prog.tags else P.mon_layout(rr))],
     nontrivial=lambda rr: has(rr, ("dump",), ("ok",)),
@@ -320,7 +321,7 @@ reg("C03",
          "distinct = distinct (op, result-class) sequences / syscall skeletons / post-kill trees / fault classes")
 
 reg("C04",
-    gen=lambda seed, tier: (P.gen_bucket_programs(G.Rng(seed + 4), N(tier, 100, 2000)) +
+    gen=lambda seed, tier: (P.gen_bucket_programs(G.Rng(seed + 4), N(tier, 100, 2000)) + P.gen_bucket_shape_programs() +
                             P.gen_attach_rewrite_programs(G.Rng(seed + 43))),      # "later writes ... become visible"
     monitors=[lambda rr: P.mon_attach(rr) if "attach" in rr.prog.tags else P.mon_bucket(rr)],
     extra=lambda seed, tier, flavours: merge(
@@ -417,7 +418,7 @@ def gen_c12(seed, tier):
     r = G.Rng(seed + 12)
     progs = (P.gen_damage_programs(r, N(tier, 8, 60)) + P.gen_commit_programs(r, N(tier, 10, 100)) +
              P.gen_metadata_programs(r, N(tier, 10, 100)) + P.gen_history_programs(r, N(tier, 8, 60), full=True) +
-             P.gen_bucket_programs(r, N(tier, 10, 100)) +
+             P.gen_bucket_programs(r, N(tier, 10, 100)) + P.gen_bucket_shape_programs() +
              [p for p in P.gen_hostile_state_programs(r, N(tier, 9, 18)) if p.name.startswith("foreign")] +
              P.gen_size_matrix(G.Rng(seed + 121)))     # every declared-size relation x chunk shape, deterministically
     # sync-only entry points have no async twin: drop them from the comparison programs
